@@ -226,6 +226,11 @@ KEY_TYPE = {"i": INT_VALS, "u": INT_VALS, "b": INT_VALS, "t": TIME_VALS, "d": TI
             "abs": INT_VALS, "x": INT_VALS, "a.b-c_d*": INT_VALS, "q": INT_VALS}
 
 
+# string-valued keys (cf_get returns the stored pointer itself) per section
+SELF_KEYS = {"main": ["s", "f", "nrs", "", "s", "i", "l"], "two": ["s2"], "": ["k"], "a": ["y", "k1"],
+             "b": ["y", "k1"], "wo": ["k1"]}
+
+
 def pick_sect(rng, sid):
     if rng.chance(1, 12):
         return rng.choice(["nosuch", "Main", "main ", "mai"])
@@ -304,6 +309,13 @@ def cf_case(rng):
             ops.append("set %s %s %s" % (hx(sect), hx(key), hx(val)))
             if rng.chance(2, 3):
                 ops.append("get %s %s" % (hx(sect), hx(key)))
+            if rng.chance(1, 3):
+                # feed the library its own returned pointer (+offset) back: the new value aliases the old
+                ops.append("setself %s %s %d" % (hx(sect), hx(key), rng.choice([0, 0, 1, 2, 5])))
+        elif r < 70:
+            sect = pick_sect(rng, sid)
+            key = rng.choice(SELF_KEYS.get(sect, ["y", "k1", "s"]))
+            ops.append("setself %s %s %d" % (hx(sect), hx(key), rng.choice([0, 0, 1, 3, 40])))
         elif r < 80:
             sect = pick_sect(rng, sid)
             ops.append("get %s %s" % (hx(sect), hx(pick_key(rng, sid, sect))))
@@ -340,7 +352,10 @@ def rt_case(rng):
     else:
         v = pick_bytes(rng, VAL_CH, 0, 6).decode("latin-1")
     m, k = hx("main"), hx(key)
-    return ["schema 0", "set %s %s %s" % (m, k, hx(v)), "get %s %s" % (m, k), "dump"]
+    ops = ["schema 0", "set %s %s %s" % (m, k, hx(v)), "get %s %s" % (m, k)]
+    if rng.chance(1, 2):
+        ops += ["setself %s %s %d" % (m, k, rng.choice([0, 0, 1, 2])), "get %s %s" % (m, k)]
+    return ops + ["dump"]
 
 
 def monitor(lines, c_lines):
@@ -353,7 +368,7 @@ def monitor(lines, c_lines):
             break
         w = l.split()
         out = c_lines[i].split(" ## ")[0]
-        if w and w[0] in ("parse", "load", "set"):
+        if w and w[0] in ("parse", "load", "set", "setself"):
             if "NOT-INTACT" in out:
                 yield i, "a loaded buffer was freed with a NUL patch left in it: " + out, "intact"
             if " live=" in out and not out.endswith(" live=0"):
@@ -418,7 +433,8 @@ def run(ck):
                       "to depth 12, self-includes, missing files), the same with 1-3 byte mutations (incl. NUL), and raw bytes; "
                       "handler refusing the n-th event.  cf cases: histories of schema/loaded/home/file/load/set/get/dump over "
                       "four schemas (absolute, relative with base_lookup, dynamic set_key, relative with NULL base) with typed "
-                      "values at boundaries.  A case counts as non-trivial when it is distinct and contains a parse/load/set.")
+                      "values at boundaries; `setself` feeds the pointer cf_get returned (+offset) back into cf_set, so the new "
+                      "value aliases the stored one.  A case counts as non-trivial when it is distinct and contains a parse/load/set.")
     if not ck.quick():
         ck.leanchecker(PROP_MODULES + ["UsualProofs.C18." + m for m in
                                        ("View", "Ref", "LineSpec", "Scan", "NumP", "ConfigP")])
@@ -429,7 +445,7 @@ def run(ck):
                          "(set_get_roundtrip_time)",
                          "cf_set_filename: $HOME / getpwnam are parameters (Env); only the plain and `~/` cases are theorems"]
     rng = vf.SplitMix(ck.seed)
-    nontriv = lambda c: any(l.split()[0] in ("parse", "load", "set") for l in c)
+    nontriv = lambda c: any(l.split()[0] in ("parse", "load", "set", "setself") for l in c)
     hist = {}
 
     def go(cases, label):
